@@ -10,10 +10,10 @@ t=$(cargo test --offline 2>&1 | grep -E "^test result" | head -2 | tr '\n' ' ')
 echo "tests with change: $t"
 demo=$out/demo
 [ -f "$demo/Cargo.lock" ] || cp /repo/Cargo.lock "$demo/" 2>/dev/null
-( cd "$demo" && cargo run --offline -q >/tmp/confirm_with.log 2>&1; echo "demo with change: exit $?"; tail -3 /tmp/confirm_with.log | cut -c1-300 )
-git stash -q
-( cd "$demo" && cargo run --offline -q >/tmp/confirm_without.log 2>&1; echo "demo without change: exit $?"; tail -2 /tmp/confirm_without.log | cut -c1-200 )
-git stash pop -q
+( cd "$demo" && cargo run --offline --release -q >/tmp/confirm_with.log 2>&1; echo "demo with change: exit $?"; tail -3 /tmp/confirm_with.log | cut -c1-300 )
+git diff > /tmp/confirm_toggle.diff; git apply -R /tmp/confirm_toggle.diff
+( cd "$demo" && cargo run --offline --release -q >/tmp/confirm_without.log 2>&1; echo "demo without change: exit $?"; tail -2 /tmp/confirm_without.log | cut -c1-200 )
+git apply /tmp/confirm_toggle.diff
 rm -rf "$demo/target"
 d=/verif/seeded/$name; mkdir -p "$d"
 cp /tmp/confirm_patch.diff "$d/patch.diff"; cp "$out/demo.rs" "$d/demo.rs" 2>/dev/null || cp "$demo/src/main.rs" "$d/demo.rs"
